@@ -1503,6 +1503,61 @@ def _split_generator_loops(fn, chain, recorded):
     return changed[0]
 
 
+def _thread_none_guards(fn):
+    """N20: the "lookup or None" shape left by an inlined helper:
+        if C: v = None            v = X
+        else: v = X        ==>    if C or v is None: S
+        if v is None: S
+    (S any statements; X is evaluated once either way: it must already be evaluated inside C, or be a
+    plain name / attribute chain).  Afterwards `v` is a single-assignment alias of X and what follows S's
+    exit stands under `not C`."""
+    changed = [False]
+
+    def simple(x):
+        while isinstance(x, ast.Attribute):
+            x = x.value
+        return isinstance(x, (ast.Name, ast.Constant))
+
+    def block(stmts):
+        i = 0
+        while i < len(stmts):
+            st = stmts[i]
+            for field in ('body', 'orelse', 'finalbody'):
+                sub = getattr(st, field, None)
+                if isinstance(sub, list) and not isinstance(st, (ast.FunctionDef, ast.AsyncFunctionDef, ast.ClassDef)):
+                    block(sub)
+            for h in getattr(st, 'handlers', []) or []:
+                block(h.body)
+            if isinstance(st, ast.If) and i + 1 < len(stmts) and isinstance(stmts[i + 1], ast.If) \
+                    and len(st.body) == 1 and len(st.orelse) == 1:
+                a, b = st.body[0], st.orelse[0]
+                test = st.test
+                if isinstance(b, ast.Assign) and isinstance(b.value, ast.Constant) and b.value.value is None:
+                    a, b = b, a
+                    test = ast.UnaryOp(op=ast.Not(), operand=test)
+                nxt = stmts[i + 1]
+                if isinstance(a, ast.Assign) and isinstance(b, ast.Assign) and len(a.targets) == 1 and len(b.targets) == 1 \
+                        and isinstance(a.targets[0], ast.Name) and isinstance(b.targets[0], ast.Name) \
+                        and a.targets[0].id == b.targets[0].id and isinstance(a.value, ast.Constant) and a.value.value is None \
+                        and not nxt.orelse and isinstance(nxt.test, ast.Compare) and len(nxt.test.ops) == 1 \
+                        and isinstance(nxt.test.ops[0], ast.Is) and isinstance(nxt.test.left, ast.Name) \
+                        and nxt.test.left.id == a.targets[0].id and isinstance(nxt.test.comparators[0], ast.Constant) \
+                        and nxt.test.comparators[0].value is None:
+                    v, X = a.targets[0].id, b.value
+                    xd = ast.dump(X)
+                    if not any(isinstance(y, ast.Name) and y.id == v for y in ast.walk(X)) and (
+                            simple(X) or any(ast.dump(y) == xd for y in ast.walk(st.test))):
+                        new_assign = ast.copy_location(ast.Assign(targets=[ast.Name(id=v, ctx=ast.Store())], value=X,
+                                                                  type_comment=None), st)
+                        nxt.test = ast.copy_location(ast.BoolOp(op=ast.Or(), values=[test, nxt.test]), nxt.test)
+                        stmts[i] = ast.fix_missing_locations(new_assign)
+                        ast.fix_missing_locations(nxt)
+                        changed[0] = True
+            i += 1
+    block(fn.body)
+    return changed[0]
+
+
 def _fold_sentinels(tree):
     """N18: comparisons with a private sentinel object.  `_MARK = object()` at module level (bound once,
     underscore-private) is a value nothing else can be equal to; when it is only ever compared and
@@ -1691,6 +1746,7 @@ def normalize_module(tree, no_inline, all_classes=None, recorded=None, all_funcs
             if _fuse_comprehensions(fn):
                 _idioms.rewrite_function(fn, c.name)
             _forward_return_temps(fn)          # (return temporaries of inlined helpers)
+            _thread_none_guards(fn)
             _scalarise_tuples(fn)
             _SplitTupleAssign().visit(fn)
             _forward_process_temps(fn)
@@ -1702,3 +1758,51 @@ def normalize_module(tree, no_inline, all_classes=None, recorded=None, all_funcs
         _FoldConst().visit(tree)
     ast.fix_missing_locations(tree)
     return inl.inlined_calls
+
+
+def merged_caller(class_node, caller_name, callee_name, no_inline):
+    """A copy of method `caller_name` of the (already normalised) class with the calls to its own
+    method `callee_name` inlined, whatever the inlining policy says about that name: the view a
+    rule takes when a block may sit on either side of the call (responsibility moved between an
+    anchor method and its caller).  None when nothing could be inlined."""
+    import copy as _copy
+    fn = next((b for b in class_node.body if isinstance(b, ast.FunctionDef) and b.name == caller_name), None)
+    if fn is None or not any(isinstance(b, ast.FunctionDef) and b.name == callee_name for b in class_node.body):
+        return None
+    fn = _copy.deepcopy(fn)
+    inl = Inliner({class_node.name: class_node}, set(no_inline) - {callee_name})
+    ch = [class_node]
+
+    def qual_of(owner, h):
+        return '%s.%s' % (owner.name, h.name) if owner is not None else ':%s' % h.name
+    only = {callee_name}
+    orig_lookup = inl.lookup
+
+    def lookup(chain, call):
+        o, h, nm = orig_lookup(chain, call)
+        if nm not in only:
+            return None, None, None
+        return o, h, nm
+    inl.lookup = lookup
+    done = False
+    for _ in range(2):
+        t1 = _InlineExprs(inl, ch, fn, qual_of)
+        t1.visit(fn)
+        t2 = _InlineStmts(inl, ch, fn, qual_of)
+        t2.visit(fn)
+        if not (t1.changed or t2.changed):
+            break
+        done = True
+        _idioms.rewrite_function(fn, class_node.name)
+        _DictIdioms().visit(fn)
+        _IfExpDesugar().visit(fn)
+        _Unroll().visit(fn)
+        _FoldConst().visit(fn)
+    if not done:
+        return None
+    _forward_return_temps(fn)
+    _scalarise_tuples(fn)
+    _SplitTupleAssign().visit(fn)
+    _forward_flags(fn)
+    ast.fix_missing_locations(fn)
+    return fn
